@@ -274,9 +274,15 @@ void manifold_sculpting_embed(RandomAccessIterator begin, RandomAccessIterator e
          * by a factor of squishing_rate.
          */
         data.bottomRows(data.rows() - target_dimension) *= squishing_rate;
-        while (average_neighbor_distance(data, neighbors) < initial_average_distance)
+        ScalarType scaled_distance = average_neighbor_distance(data, neighbors);
+        while (scaled_distance < initial_average_distance)
         {
             data.topRows(target_dimension) /= squishing_rate;
+            const ScalarType enlarged_distance = average_neighbor_distance(data, neighbors);
+            // data without extent in the preserved dimensions: enlarging them cannot restore the distances
+            if (!(enlarged_distance > scaled_distance))
+                break;
+            scaled_distance = enlarged_distance;
         }
         current_multiplier *= squishing_rate;
 
